@@ -17,7 +17,8 @@ RULE = ("part classes: every kit class deriving its structure from its signature
         "overhangs, members with one overhang letter changed (near-misses), at a random rotation. characterize(): on the four kit bases "
         "and on generated bases with 1..6 subclasses in both registration orders, for members of one subclass, of none, and of several; families whose candidates use different enzymes "
         "(MoCloPart and generated ones) with members of one candidate that carry another candidate's structure, intact or spoilt by a third site. "
-        "Non-trivial = record with a unique generic match whose expected verdict was compared; distinct = distinct (class, record).")
+        "Non-trivial = record with a unique generic match whose expected verdict was compared; distinct = distinct (class, record)."
+        " Second session: members spoilt by a further copy of the site that opens the structure (the generic class refuses them, so must the part); every part entity is asked twice; members held as editable records, changed in place in one overhang letter and wrapped again.")
 ASSUMPTIONS = ["records over ACGT with exactly one forward and one reverse cutter site (unique generic match)"]
 FLOORS = {"c05_compared": 3000, "c05_expected_accept": 500, "c05_expected_reject": 500, "c05_characterize_calls": 300,
           "c05_characterize_returned": 100, "c05_characterize_raised": 50, "c05_late_subclass_characterizations": 50,
